@@ -3,6 +3,7 @@
 // serves bytes from a generated script and logs every request.
 #define VH_NO_SODIUM_INIT 1
 #include "vh_main.hpp"
+#include "giant.hpp"
 #include "stream.hpp"
 #include "x25519.hpp"
 #include "ed25519.hpp"
@@ -343,7 +344,7 @@ struct KCase {
     int impl, mode; uint64_t seed; int variant;   // impl 0 sysrandom, 1 internal; mode 0 getrandom(2), 1 read(2) on /dev/urandom; variant (internal): reseed through 0 close, 1 stir, 2 close+stir
     KV kv() const { KV k; k.s("kind", "kernel").u("impl", impl).u("mode", mode).u("seed", seed).u("variant", variant); return k; }
 };
-const char *kmode(int m) { return m ? "read(2) on /dev/urandom (getrandom unavailable), short reads and EINTR/EAGAIN" : "getrandom(2) with EINTR/EAGAIN"; }
+const char *kmode(int m) { return m == 2 ? "getrandom unavailable and /dev/urandom, /dev/random are not character devices" : m ? "read(2) on /dev/urandom (getrandom unavailable), short reads and EINTR/EAGAIN" : "getrandom(2) with EINTR/EAGAIN"; }
 
 // every byte of [p, p+n) must have been written by the kernel source during the call and still hold the byte served for it
 bool covered(const uint8_t *p, size_t n, size_t mark, std::string &why) {
@@ -406,6 +407,7 @@ bool child_sys(const KCase &c, std::string &msg, Bytes &digest) {
 
 // internal generator: (re)seeding must take at least 32 bytes from the kernel source - on first use, on randombytes_stir() and on the first
 // use after randombytes_close() - and what is generated afterwards must depend on every one of them (compared across two children)
+Bytes g_words;     // 32-bit draws of the internal generator after the first seeding (compared word by word between two children)
 bool child_internal(const KCase &c, std::string &msg, Bytes &d1, Bytes &d2, std::vector<size_t> &s1, std::vector<size_t> &s2) {
     Rng r(mix64(c.seed, 0x494e));
     sodium_verif_set_cpu_mask(F_ALL & ~(unsigned long) F_RDRAND);      // the RDRAND mix-in would make the two children incomparable
@@ -425,6 +427,7 @@ bool child_internal(const KCase &c, std::string &msg, Bytes &d1, Bytes &d2, std:
     s1 = K.offsets_since(mark);
     if (s1.size() < 32) { msg = "the first output was generated after only " + std::to_string(s1.size()) + " seed bytes were requested from the kernel source (32-byte key)" + where; return false; }
     gen(d1);
+    for (int k = 0; k < 400; k++) { uint32_t v = k % 5 == 4 ? randombytes_uniform(0x80000000u) : randombytes_random(); for (int i = 0; i < 4; i++) g_words.push_back((uint8_t) (v >> (8 * i))); }
     // reseed
     size_t mark2 = K.calls.size();
     const char *how = c.variant == 0 ? "randombytes_close()" : c.variant == 1 ? "randombytes_stir()" : "randombytes_close() + randombytes_stir()";
@@ -440,7 +443,7 @@ bool child_internal(const KCase &c, std::string &msg, Bytes &d1, Bytes &d2, std:
     return true;
 }
 
-struct KRes { int st = 3; std::string msg; Bytes d1, d2; std::vector<size_t> s1, s2; uint64_t injected = 0, ncalls = 0; };   // st 0 ok, 1 property failure, 2 infrastructure, 3 child died
+struct KRes { int st = 3; std::string msg; Bytes d1, d2, w; std::vector<size_t> s1, s2; uint64_t injected = 0, ncalls = 0; };   // st 0 ok, 1 property failure, 2 infrastructure, 3 child died
 KRes run_child(const KCase &c, const std::vector<std::pair<size_t, uint8_t>> &patch) {
     KRes R; int fd[2];
     if (pipe(fd) != 0) { R.st = 2; R.msg = "pipe failed"; return R; }
@@ -456,7 +459,7 @@ KRes run_child(const KCase &c, const std::vector<std::pair<size_t, uint8_t>> &pa
         KV k; k.u("st", ok ? 0 : (msg.rfind("INFRA", 0) == 0 ? 2 : 1)).s("msg", msg).b("d1", d1).b("d2", d2).u("inj", K.injected).u("nc", K.calls.size());
         Bytes o1, o2; for (size_t i = 0; i < 32 && i < s1.size(); i++) for (int b = 0; b < 8; b++) o1.push_back((uint8_t) (s1[i] >> (8 * b)));
         for (size_t i = 0; i < 32 && i < s2.size(); i++) for (int b = 0; b < 8; b++) o2.push_back((uint8_t) (s2[i] >> (8 * b)));
-        k.b("s1", o1).b("s2", o2);
+        k.b("s1", o1).b("s2", o2).b("w", g_words);
         std::string line = k.text() + "#END\n";
         size_t off = 0; while (off < line.size()) { ssize_t w = write(fd[1], line.data() + off, line.size() - off); if (w <= 0) break; off += (size_t) w; }
         _exit(0);
@@ -472,7 +475,7 @@ KRes run_child(const KCase &c, const std::vector<std::pair<size_t, uint8_t>> &pa
     KV k = KV::parse(in);
     R.st = (int) k.gu("st"); R.msg = k.gs("msg"); R.d1 = k.gb("d1"); R.d2 = k.gb("d2"); R.injected = k.gu("inj"); R.ncalls = k.gu("nc");
     auto dec = [](const Bytes &b) { std::vector<size_t> o; for (size_t i = 0; i + 8 <= b.size(); i += 8) { size_t v = 0; for (int j = 7; j >= 0; j--) v = (v << 8) | b[i + (size_t) j]; o.push_back(v); } return o; };
-    R.s1 = dec(k.gb("s1")); R.s2 = dec(k.gb("s2"));
+    R.s1 = dec(k.gb("s1")); R.s2 = dec(k.gb("s2")); R.w = k.gb("w");
     return R;
 }
 
@@ -485,8 +488,16 @@ uint64_t g_kernel_skipped = 0;
 
 bool run_kernel(const KCase &c, std::string &msg) {
     init_once();
-    if (c.mode == 1 && !dev_urandom_usable()) { g_kernel_skipped++; return true; }
+    if (c.mode >= 1 && !dev_urandom_usable()) { g_kernel_skipped++; return true; }
     KRes a = run_child(c, {});
+    if (c.mode == 2) {
+        // no system call interface and no character device to read: the source has nothing to draw from.  It must stop (the library's
+        // misuse handler aborts); bytes that came out of a regular file or a FIFO must never be handed out as random.
+        if (a.st == 3) return true;
+        if (a.st == 2) { fprintf(stderr, "VH-INFRA built-in source scenario: %s\n", a.msg.c_str()); _exit(2); }
+        msg = std::string(c.impl ? "internal generator" : "sysrandom") + ": random bytes were delivered although neither getrandom() nor a character device was available (the file at /dev/urandom is reported as a regular file)" + (a.msg.empty() ? "" : ": " + a.msg);
+        return false;
+    }
     if (a.st == 2) { fprintf(stderr, "VH-INFRA built-in source scenario: %s\n", a.msg.c_str()); _exit(2); }
     if (a.st != 0) { msg = a.msg; return false; }
     if (c.impl == 0) return true;
@@ -499,6 +510,11 @@ bool run_kernel(const KCase &c, std::string &msg) {
         KRes b = run_child(c, { { s[j], bit } });
         if (b.st == 2) { fprintf(stderr, "VH-INFRA built-in source scenario: %s\n", b.msg.c_str()); _exit(2); }
         if (b.st != 0) { msg = b.msg; return false; }
+        if (phase == 0 && a.w.size() == b.w.size() && a.w.size() >= 1600) {
+            // every 32-bit draw depends on the seed: a word that is the same in both children (2^-32 each) is a constant or seed-independent output
+            size_t same = 0, first = 0; for (size_t i = 0; i + 4 <= a.w.size(); i += 4) if (memcmp(&a.w[i], &b.w[i], 4) == 0) { if (!same) first = i / 4; same++; }
+            if (same >= 2) { msg = "internal generator: " + std::to_string(same) + " of " + std::to_string(a.w.size() / 4) + " consecutive 32-bit draws (randombytes_random / randombytes_uniform(2^31)) did not change when a seed byte changed (first: draw #" + std::to_string(first + 1) + " = " + hex(Bytes(a.w.begin() + (long) (4 * first), a.w.begin() + (long) (4 * first) + 4)) + "): constant or seed-independent output [" + kmode(c.mode) + "]"; return false; }
+        }
         const Bytes &da = phase ? a.d2 : a.d1, &db = phase ? b.d2 : b.d1;
         if (da == db) { msg = std::string("internal generator: changing byte ") + std::to_string(j) + " of the 32 seed bytes served by the kernel source " + (phase ? "for the reseeding" : "for the first seeding") + " did not change anything generated afterwards (" + std::to_string(da.size()) + " bytes compared) [" + kmode(c.mode) + "]"; return false; }
     }
@@ -511,13 +527,89 @@ void explore_kernel(Ctx &ctx) {
     size_t n = ctx.thorough() ? 1500 : 240;
     for (size_t i = 0; i < n; i++) {
         KCase c{ (int) (i % 2), (int) ((i / 2) % 2), r.next(), (int) ((i / 4) % 3) };
+        if (i % 16 >= 14) c.mode = 2;
         if (!ctx.mine(idx++)) continue;
         exec_case(ctx, c, run_kernel, mix64(mix64(c.impl, c.mode), mix64(c.seed, c.variant)), true);
     }
     ctx.notes["builtin_source_scenarios_skipped"] = std::to_string(g_kernel_skipped);
 }
 
+// ------------------------------------------------------------------ requests of 4 GiB and more (thorough tier, non-sanitizer build, first round)
+// "Fully covering" also for a request whose size does not fit 32 bits: an installed source must be asked for exactly that many bytes, the
+// shipped sources must fill all of them, randombytes_buf_deterministic must be the ChaCha20-IETF stream beyond byte 2^32 as well.  Each
+// case runs in a forked child (the sources keep static state); the buffer is a sparse mapping that reads as zero until written.
+struct GRCase { int kind; size_t len; KV kv() const { KV k; k.s("kind", "giant_request").u("gkind", kind).u("len", len); return k; } };   // 0 deterministic, 1 installed source, 2 sysrandom, 3 internal
+uint64_t g_gr_skipped = 0;
+size_t g_gi_total = 0; uint64_t g_gi_calls = 0; const uint8_t *g_gi_first = nullptr, *g_gi_end = nullptr;
+void gi_buf(void *p, size_t n) { g_gi_calls++; g_gi_total += n; if (!g_gi_first) g_gi_first = (const uint8_t *) p; g_gi_end = (const uint8_t *) p + n; if (n) { ((uint8_t *) p)[0] |= 0x40; ((uint8_t *) p)[n - 1] |= 0x01; } }
+const char *gi_name() { return "verif-giant"; }
+randombytes_implementation GIMPL = { gi_name, impl_random, impl_stir, nullptr, gi_buf, impl_close };
+std::string giant_child(const GRCase &c) {
+    char b[300];
+    if (c.kind != 1 && !giant::have_memory(c.len)) return "SKIP memory";
+    giant::Map M(c.len); if (!M.ok()) return "SKIP mapping";
+    const size_t G = (size_t) 1 << 32;
+    if (c.kind == 0) {
+        Bytes seed(32); for (int i = 0; i < 32; i++) seed[(size_t) i] = (uint8_t) (i * 5 + 1);
+        randombytes_buf_deterministic(M.p, c.len, seed.data());
+        for (size_t w : { (size_t) 0, G - 128, G - 64, G, G + 64, (c.len - 1) / 64 * 64, c.len / 2 / 64 * 64 }) {
+            if (w >= c.len) continue;
+            size_t n = std::min<size_t>(128, c.len - w);
+            ref::Bytes ks = ref::chacha20_ietf_stream(seed, ref::str("LibsodiumDRG"), (uint32_t) (w / 64), n);
+            if (memcmp(M.p + w, ks.data(), n) != 0) { size_t i = 0; while (i < n && M.p[w + i] == ks[i]) i++; snprintf(b, sizeof b, "randombytes_buf_deterministic(len=%zu) differs from ChaCha20-IETF(seed, 'LibsodiumDRG') at byte %zu", c.len, w + i); return b; }
+        }
+        for (int k = 0; k < 64; k++) if (M.p[c.len + (size_t) k] != 0) { snprintf(b, sizeof b, "randombytes_buf_deterministic(len=%zu) wrote beyond the requested length", c.len); return b; }
+        return "OK";
+    }
+    if (c.kind == 1) {
+        randombytes_set_implementation(&GIMPL);
+        g_gi_total = 0; g_gi_calls = 0; g_gi_first = g_gi_end = nullptr;
+        randombytes_buf(M.p, c.len);
+        if (g_gi_total != c.len || g_gi_first != M.p || g_gi_end != M.p + c.len) { snprintf(b, sizeof b, "randombytes_buf(size=%zu): the installed source was asked for %zu bytes in %llu call(s) (first byte offset %td, end offset %td): not the requested range", c.len, g_gi_total, (unsigned long long) g_gi_calls, g_gi_first ? g_gi_first - M.p : -1, g_gi_end ? g_gi_end - M.p : -1); return b; }
+        return "OK";
+    }
+    randombytes_set_implementation(c.kind == 2 ? &randombytes_sysrandom_implementation : &randombytes_internal_implementation);
+    randombytes_stir();
+    randombytes_buf(M.p, c.len);
+    // 4096 windows of 32 bytes spread over the buffer plus the ones around 2^32 and at the end: an all-zero window has probability 2^-256
+    size_t step = c.len / 4096;
+    std::vector<size_t> ws; for (size_t i = 0; i < 4096; i++) ws.push_back(i * step); for (size_t w : { G - 32, G, G + 32, c.len - 32, c.len - 64 }) if (w + 32 <= c.len) ws.push_back(w);
+    for (size_t w : ws) { bool z = true; for (int k = 0; k < 32; k++) if (M.p[w + (size_t) k]) z = false; if (z) { snprintf(b, sizeof b, "randombytes_buf(size=%zu) with the %s source left bytes %zu..%zu unwritten (all zero)", c.len, c.kind == 2 ? "sysrandom" : "internal", w, w + 31); return b; } }
+    for (int k = 0; k < 64; k++) if (M.p[c.len + (size_t) k] != 0) { snprintf(b, sizeof b, "randombytes_buf(size=%zu) wrote beyond the requested size", c.len); return b; }
+    return "OK";
+}
+bool run_giant_request(const GRCase &c, std::string &msg) {
+    init_once();
+    int fd[2]; if (pipe(fd) != 0) { g_gr_skipped++; return true; }
+    fflush(nullptr);
+    pid_t pid = fork();
+    if (pid < 0) { close(fd[0]); close(fd[1]); g_gr_skipped++; return true; }
+    if (pid == 0) { close(fd[0]); std::string r = giant_child(c); ssize_t w = write(fd[1], r.data(), r.size()); (void) w; _exit(0); }
+    close(fd[1]);
+    std::string r; char buf[400]; ssize_t n; while ((n = read(fd[0], buf, sizeof buf)) > 0) r.append(buf, (size_t) n);
+    close(fd[0]);
+    int status = 0; waitpid(pid, &status, 0);
+    if (WIFSIGNALED(status) && WTERMSIG(status) == SIGKILL) { g_gr_skipped++; return true; }       // killed from outside (memory pressure): inconclusive
+    if (WIFSIGNALED(status)) { msg = "the child died with signal " + std::to_string(WTERMSIG(status)) + " during a request of " + std::to_string(c.len) + " bytes (kind " + std::to_string(c.kind) + ")"; return false; }
+    if (r.compare(0, 4, "SKIP") == 0) { g_gr_skipped++; return true; }
+    if (r == "OK") return true;
+    msg = r.empty() ? "the child returned nothing" : r; return false;
+}
+void explore_giant_requests(Ctx &ctx) {
+    if (!ctx.thorough() || !giant::fast_build() || !giant::first_round()) { ctx.notes["giant_requests"] = "thorough tier, non-sanitizer build, first round only"; return; }
+    uint64_t idx = 0;
+    for (int kind = 0; kind < 4; kind++) for (size_t len : { ((size_t) 1 << 32) + 100, (size_t) 1 << 32 }) {
+        uint64_t i = idx++;
+        if (ctx.worker != (int) (i % (uint64_t) std::min(ctx.nworkers, 3))) continue;
+        if (kind == 2 && len == ((size_t) 1 << 32)) continue;                        // the kernel source: 16 million system calls per case, one length is enough
+        GRCase c{ kind, len };
+        exec_case(ctx, c, run_giant_request, mix64(kind, len), true);
+    }
+    ctx.notes["giant_requests_skipped"] = std::to_string(g_gr_skipped);
+}
+
 bool replay(const KV &k, std::string &msg) {
+    if (k.gs("kind") == "giant_request") { GRCase c{ (int) k.gu("gkind"), (size_t) k.gu("len") }; return run_giant_request(c, msg); }
     if (k.gs("kind") == "kernel") { KCase c{ (int) k.gu("impl"), (int) k.gu("mode"), k.gu("seed"), (int) k.gu("variant") }; return run_kernel(c, msg); }
     if (k.gs("kind") == "uniform") { UniCase c; c.n = (uint32_t) k.gu("n"); Bytes d = k.gb("draws"); for (size_t i = 0; i + 4 <= d.size(); i += 4) c.draws.push_back((uint32_t) d[i] | ((uint32_t) d[i + 1] << 8) | ((uint32_t) d[i + 2] << 16) | ((uint32_t) d[i + 3] << 24)); return run_uniform(c, msg); }
     if (k.gs("kind") == "det") { DetCase c{ (size_t) k.gu("len"), k.gb("seed"), (unsigned long) k.gu("mask") }; return run_det(c, msg); }
@@ -531,7 +623,7 @@ bool replay(const KV &k, std::string &msg) {
 }  // namespace
 
 std::vector<Sub> vh_subs() {
-    return { { "uniform", explore_uniform, replay }, { "deterministic", explore_det, replay }, { "generators", explore_gen, replay }, { "builtin_sources", explore_kernel, replay } };
+    return { { "uniform", explore_uniform, replay }, { "deterministic", explore_det, replay }, { "generators", explore_gen, replay }, { "builtin_sources", explore_kernel, replay }, { "giant_requests", explore_giant_requests, replay } };
 }
 
 // ------------------------------------------------------------------ link-time interposition (-Wl,--wrap=...): pass-through unless a scenario is active
@@ -542,11 +634,12 @@ int __real_getentropy(void *, size_t);
 int __real_open(const char *, int, ...);
 int __real_open64(const char *, int, ...);
 int __real_gettimeofday(struct timeval *, void *);
+int __real_fstat(int, struct stat *);
 
 ssize_t __wrap_getrandom(void *buf, size_t n, unsigned int flags) {
     if (!K.active) return __real_getrandom(buf, n, flags);
     K.entered++;
-    if (K.mode == 1) { errno = ENOSYS; return -1; }
+    if (K.mode >= 1) { errno = ENOSYS; return -1; }
     if (K.inject()) return -1;
     K.serve(buf, n, n == 16);
     return (ssize_t) n;
@@ -555,7 +648,7 @@ ssize_t __wrap_getrandom(void *buf, size_t n, unsigned int flags) {
 int __wrap_getentropy(void *buf, size_t n) {
     if (!K.active) return __real_getentropy(buf, n);
     K.entered++;
-    if (K.mode == 1) { errno = ENOSYS; return -1; }
+    if (K.mode >= 1) { errno = ENOSYS; return -1; }
     if (n > 256) { errno = EIO; return -1; }
     K.ncall++;
     K.serve(buf, n, n == 16);
@@ -585,6 +678,11 @@ int __wrap_open64(const char *path, int flags, ...) {
     mode_t mode = 0;
     if (flags & (O_CREAT | O_TMPFILE)) { va_list ap; va_start(ap, flags); mode = (mode_t) va_arg(ap, int); va_end(ap); }
     return k_opened(path, __real_open64(path, flags, mode));
+}
+int __wrap_fstat(int fd, struct stat *st) {
+    int r = __real_fstat(fd, st);
+    if (K.active && K.mode == 2 && r == 0 && fd == K.ufd) st->st_mode = (st->st_mode & ~(mode_t) S_IFMT) | S_IFREG;
+    return r;
 }
 int __wrap_gettimeofday(struct timeval *tv, void *tz) {
     if (!K.active) return __real_gettimeofday(tv, tz);
